@@ -1,0 +1,143 @@
+//! Verification hooks (cargo feature `verif_hooks`, off by default).
+//!
+//! A *sequential model* of `std::sync::Mutex` used by `MutArc` when the
+//! feature is on: an acquisition is a flag update plus an optional callback,
+//! so a model checker / symbolic executor can observe every lock event,
+//! pre-empt a logical thread right before an acquisition, and detect an
+//! acquisition of a lock that is already held (which the real mutex would
+//! answer by blocking forever) instead of hanging.
+//!
+//! Nothing here is compiled without the feature.
+use std::{
+  cell::{Cell, UnsafeCell},
+  ops::{Deref, DerefMut},
+};
+
+#[derive(Debug, Clone, Copy, PartialEq, Eq)]
+pub enum LockEvent {
+  /// about to acquire (a pre-emption point)
+  Before,
+  /// acquired
+  Acquired,
+  /// released (guard dropped)
+  Released,
+  /// acquisition attempted while the lock is held: the real mutex blocks
+  Relock,
+}
+
+pub type LockHook = fn(LockEvent, usize);
+pub type YieldHook = fn(usize);
+
+#[cfg(not(kani))]
+thread_local! {
+  static LOCK_HOOK: Cell<Option<LockHook>> = Cell::new(None);
+  static YIELD_HOOK: Cell<Option<YieldHook>> = Cell::new(None);
+}
+
+/// Install (or remove) the lock-event callback of the current OS thread.
+#[cfg(not(kani))]
+pub fn set_lock_hook(h: Option<LockHook>) {
+  LOCK_HOOK.with(|c| c.set(h));
+}
+
+/// Install (or remove) the yield-point callback of the current OS thread.
+#[cfg(not(kani))]
+pub fn set_yield_hook(h: Option<YieldHook>) {
+  YIELD_HOOK.with(|c| c.set(h));
+}
+
+#[cfg(not(kani))]
+#[inline]
+fn lock_event(e: LockEvent, id: usize) {
+  if let Some(h) = LOCK_HOOK.with(|c| c.get()) {
+    h(e, id)
+  }
+}
+
+#[cfg(kani)]
+#[inline]
+fn lock_event(_: LockEvent, _: usize) {}
+
+/// A named point at which another logical thread may run.
+#[inline]
+pub fn yield_point(_id: usize) {
+  #[cfg(not(kani))]
+  if let Some(h) = YIELD_HOOK.with(|c| c.get()) {
+    h(_id)
+  }
+}
+
+pub struct Mutex<T> {
+  held: Cell<bool>,
+  data: UnsafeCell<T>,
+}
+
+// Same bounds as std's mutex. The model is only ever driven by one OS thread
+// at a time (logical threads are interleaved by the checker).
+unsafe impl<T: Send> Send for Mutex<T> {}
+unsafe impl<T: Send> Sync for Mutex<T> {}
+
+#[derive(Debug)]
+pub struct NeverPoisoned;
+
+pub struct MutexGuard<'a, T> {
+  m: &'a Mutex<T>,
+}
+
+impl<T> Mutex<T> {
+  pub fn new(t: T) -> Self {
+    Mutex { held: Cell::new(false), data: UnsafeCell::new(t) }
+  }
+
+  #[inline]
+  pub fn id(&self) -> usize {
+    self as *const Self as *const u8 as usize
+  }
+
+  pub fn lock(&self) -> Result<MutexGuard<'_, T>, NeverPoisoned> {
+    let id = self.id();
+    lock_event(LockEvent::Before, id);
+    if self.held.get() {
+      // The callback may unwind (the checker prunes or reports the path).
+      lock_event(LockEvent::Relock, id);
+      panic!("verif_sync: lock acquired while already held (would block)");
+    }
+    self.held.set(true);
+    lock_event(LockEvent::Acquired, id);
+    Ok(MutexGuard { m: self })
+  }
+}
+
+impl<T> From<T> for Mutex<T> {
+  fn from(t: T) -> Self {
+    Mutex::new(t)
+  }
+}
+
+impl<T: Default> Default for Mutex<T> {
+  fn default() -> Self {
+    Mutex::new(T::default())
+  }
+}
+
+impl<'a, T> Deref for MutexGuard<'a, T> {
+  type Target = T;
+  #[inline]
+  fn deref(&self) -> &T {
+    unsafe { &*self.m.data.get() }
+  }
+}
+
+impl<'a, T> DerefMut for MutexGuard<'a, T> {
+  #[inline]
+  fn deref_mut(&mut self) -> &mut T {
+    unsafe { &mut *self.m.data.get() }
+  }
+}
+
+impl<'a, T> Drop for MutexGuard<'a, T> {
+  fn drop(&mut self) {
+    self.m.held.set(false);
+    lock_event(LockEvent::Released, self.m.id());
+  }
+}
